@@ -55,9 +55,34 @@ def gen_inputs(tier, rnd):
         yield {"spec": spec, "table": table, "mode": rnd.choice(["yield", "continue", "raise"]), "limit": limit, "api": api, "prepass": api == "rows" and rnd.random() < 0.2}
 
 
+def interleaved(spec, text, mode, limit, k):
+    """one Reader whose rows() is called a second time while the first iterator is in use (nothing is done with the
+    second one): what the first iterator produces - rows and rejections, in order - is what an undisturbed pass produces"""
+    import io
+    from cutplace import validio
+    reader = validio.Reader(V.build_cid(spec), io.StringIO(text, newline=""), on_error=mode, validate_until=limit)
+    it = reader.rows()
+    outs = []
+    try:
+        for _ in range(k):
+            outs.append(next(it))
+    except StopIteration:
+        pass
+    reader.rows()
+    outs.extend(it)
+    return [("err",) if isinstance(o, Exception) else ("row", tuple(o)) for o in outs]
+
+
 def direct_oracle(inp, obs):
     spec, table, limit = inp["spec"], inp["table"], inp.get("limit")
     header = spec.get("header", 0)
+    if inp.get("api") == "rows" and inp["mode"] == "yield" and not spec["checks"] and not inp.get("prepass") and not inp.get("fault") \
+            and len(table) >= 2 and (len(table) + header) % 2 == 0:
+        plain = [("err",) if "err" in o else ("row", tuple(o["row"])) for o in obs["outs"]]
+        for k in (1, 2):
+            got = interleaved(spec, V.encode(spec, table), "yield", limit, k)
+            if got != plain:
+                return "rows() asked again after %d outputs changes what the iterator in use produces: %r instead of %r" % (k, got, plain)
     if inp.get("api") == "rows" and inp["mode"] == "yield":
         # a rejection is reported iff the offending row's number is at most the limit; later rows come back unchanged
         data_rows = table[header:]
